@@ -463,7 +463,18 @@ func verifC15Case(line string) (out string) {
 			if len(f[6]) != 1 {
 				return "bad-op"
 			}
-			wp.timeoutTERM = 40 * time.Millisecond
+			inRunning := false
+			for _, x := range c.rg {
+				if x == u {
+					inRunning = true
+				}
+			}
+			if !(ex.killMode == "a" && inRunning) {
+				// the give-up path: its outcome does not depend on how many SIGTERMs were sent first.
+				// (With "a" and a runner in `running` the first SIGTERM ends the run; the TERM timeout
+				// stays at an hour so that a stalled goroutine cannot give up before sending it.)
+				wp.timeoutTERM = 40 * time.Millisecond
+			}
 		case "k":
 			n, err := strconv.Atoi(f[6][1:])
 			if err != nil || n < 1 {
